@@ -1022,8 +1022,19 @@ impl SignedDuration {
         self,
         rhs: SignedDuration,
     ) -> Option<SignedDuration> {
-        let Some(rhs) = rhs.checked_neg() else { return None };
-        self.checked_add(rhs)
+        match rhs.checked_neg() {
+            Some(rhs) => self.checked_add(rhs),
+            // `rhs.secs` is `i64::MIN`, so `-rhs` is not representable even
+            // though `self - rhs` might be. Since `rhs + 1s` can always be
+            // negated in this case, compute `(self + 1s) + -(rhs + 1s)`.
+            None => {
+                let one = SignedDuration::new_unchecked(1, 0);
+                let Some(lhs) = self.checked_add(one) else { return None };
+                let Some(rhs) = rhs.checked_add(one) else { return None };
+                let Some(rhs) = rhs.checked_neg() else { return None };
+                lhs.checked_add(rhs)
+            }
+        }
     }
 
     /// Add two signed durations together. If overflow occurs, then arithmetic
